@@ -8,7 +8,7 @@ from common import R, Rmat, Cx, fl, flmat, cfl, max_rel_err
 
 from common import wiring_pre_build as pre_build  # noqa: E402,F401
 
-LEAN_MODULES = ["PyomaVerif.Props.C05", "PyomaVerif.Props.C05Charpoly", "PyomaVerif.Props.C05E2E", "PyomaVerif.Mutants.C05", "PyomaVerif.Props.WiringRun", "PyomaVerif.Props.C05Stored", "PyomaVerif.Props.WiringStore", "PyomaVerif.Props.WiringClass", "PyomaVerif.Props.WiringCalls", "PyomaVerif.Props.C05Table"]
+LEAN_MODULES = ["PyomaVerif.Props.C05", "PyomaVerif.Props.C05Charpoly", "PyomaVerif.Props.C05E2E", "PyomaVerif.Mutants.C05", "PyomaVerif.Props.WiringRun", "PyomaVerif.Props.C05Stored", "PyomaVerif.Props.WiringStore", "PyomaVerif.Props.WiringClass", "PyomaVerif.Props.WiringCalls", "PyomaVerif.Props.C05Table", "PyomaVerif.Props.C05Count"]
 THEOREMS = [
     # call-site wiring of the class layer, regenerated from /repo on every run (translate_wiring.py)
     "PV.WiringRun.C05_run_plscf",
@@ -97,6 +97,16 @@ THEOREMS = [
     "PV.C05.e2e_poles",
     "PV.C05.e2e_rec_model",
     "PV.C05.e2e_table_model",
+    # orders above the true one through the whole call, independence of ordmax, number of reported poles (Props/C05Count.lean)
+    "PV.Plscf.plscfAll_error",
+    "PV.Plscf.plscfAll_error_of_none",
+    "PV.Plscf.plscfAll_take",
+    "PV.C05.C05_plscfAll_above_error",
+    "PV.C05.C05_e2e_ordmax_eq",
+    "PV.C05.C05_order_prefix",
+    "PV.C05.C05_order_column_independent",
+    "PV.C05.C05_e2e_count",
+    "PV.C05.e2e_log",
 ]
 RULE = (
     "correspondence: rmfd2ac on random coefficient stacks (identity / unimodular / float leading block, equal and unequal "
@@ -110,7 +120,11 @@ RULE = (
     "accompanies the poles is the one judged) and a second extraction identical; every modelled function must leave its "
     "arguments untouched; class layer: algorithms.pLSCF via SingleSetup with random non-default parameters and data "
     "amplitudes 1e-8..1e8 — stored Ad/Bn are pLSCF(result.Sy), stored poles are poles of that model, data untouched, "
-    "second object and second run identical. distinct = (function, shape/sign/branch) keys"
+    "second object and second run identical. pLSCF[orders 4..8]: one pass of the exact model at orders 4..8 (Nch <= 2 quick, "
+    "<= 3 thorough) against the real call, 1e-13*cond(M22); pLSCF[above n]: the real call run to ordmax+extra, its first "
+    "ordmax entries against the model run to ordmax (C05_order_prefix); pLSCF_poles[pad]/[loop] with Nref != Nch and "
+    "orders up to 8; np.log contract (exp(log z) = z to 1e-13, Re log z > 0 iff |z|^2 > 1 outside a 1e-12 band) on every "
+    "recorded eigenvalue. distinct = (function, shape/sign/branch) keys"
 )
 EXTRA_TRUSTED = [
     "np.linalg.eig (its recorded output is a parameter of the ac2mp_poly model), np.log, float sqrt/abs, 2*pi",
@@ -318,6 +332,7 @@ def _corr_ac2mp(ctx, pl):
         if V.size:
             ctx.contract("eig", np.abs(np.asarray(Ae, complex) @ V - V * lam_d[None, :]).max() / max(np.abs(Ae).max(), 1e-300), 1e-8, "A V = V diag(lambda)")
         logv = np.log(lam_d)
+        _log_contract(ctx, lam_d, logv)
         invdt = 1 / dt
         tau = -(nxseg - 1) / np.log(0.01)
         invtau = 1 / (tau * dt)  # the shift as coded after the repair of F3 (C08)
@@ -421,7 +436,9 @@ def _corr_pad(ctx, pl):
     for k in range(ctx.n(80, 800)):
         g = ctx.nprng()
         m = rng.randint(1, 3)
-        l = m  # the class always passes Nref == Nch; C.shape[0] is used as Nch in the reshape
+        # the class always passes Nref == Nch; the function does not need it: C.shape[0] (= l) is the width of a shape row
+        l = m if rng.random() < 0.5 else rng.randint(1, 4)
+        ctx.count("pad_l_eq_m" if l == m else "pad_l_ne_m")
         ncols = rng.randint(1, 5)
         mono = rng.random() < 0.75
         if mono:
@@ -459,7 +476,7 @@ def _corr_pad(ctx, pl):
         cols = [_col_json(*r) for r in rec]
         inp = {"cols": cols}
         mod = ctx.model("plscf_pad", **inp)
-        key = (tuple(orders), m, raised is not None)
+        key = (tuple(orders), m, l, raised is not None)
         ctx.count("pad_monotone" if mono else "pad_any_order")
         if raised is not None or "raises" in mod:
             ctx.count("pad_raises")
@@ -553,6 +570,27 @@ def _corr_plscf(ctx, pl):
 
 
 # ----------------------------------------------------------------------------- correspondence: the two loops as model functions
+def _log_contract(ctx, lam_d, logv):
+    """the np.log contract of `C05_e2e_count` on one recorded eigen-decomposition: exp(log z) = z to rounding, and the
+    sign form the theorem uses -- Re log z > 0 exactly when |z|^2 > 1, |z|^2 taken exactly on the recorded floats --
+    outside a band of 1e-12 around the unit circle (inside it the float log may round to 0; counted)."""
+    from fractions import Fraction
+
+    for z, w in zip(lam_d, logv):
+        z = complex(z)
+        if z == 0:
+            ctx.count("log_contract_zero_eigenvalue")
+            continue
+        w = complex(w)
+        res = abs(np.exp(w) - z) / abs(z)
+        n2 = Fraction(z.real) ** 2 + Fraction(z.imag) ** 2
+        if abs(n2 - 1) <= Fraction(1, 10**12):
+            ctx.count("log_contract_sign_band_skipped")
+        elif (w.real > 0) != (n2 > 1):
+            res = float("inf")
+        ctx.contract("log", res, 1e-13 * max(1.0, abs(w)), "exp(log z) = z; Re log z > 0 iff |z|^2 > 1")
+
+
 def _corr_poles_loop(ctx, pl):
     """pLSCF_poles against the model function `plscfPoles` (Model/Poles.lean): the loop over the list positions (rmfd2ac ->
     ac2mp_poly -> inf->nan), the padding, column ii = list position ii -- table VALUES cell by cell, the shapes, the
@@ -561,9 +599,17 @@ def _corr_poles_loop(ctx, pl):
     for k in range(ctx.n(25, 300)):
         g = ctx.nprng()
         m = rng.randint(1, 3)
-        l = m
+        l = m if rng.random() < 0.5 else rng.randint(1, 4)
+        ctx.count("poles_loop_l_eq_m" if l == m else "poles_loop_l_ne_m")
         ncols = rng.randint(1, 4)
-        if rng.random() < 0.8:
+        if k % 8 == 3:
+            # the whole range of the property: orders 1..8 (companion matrices up to 9*m square)
+            m = rng.randint(1, 2)
+            l = rng.randint(1, 3)
+            ncols = rng.choice([7, 8])
+            orders = list(range(1, ncols + 1))
+            ctx.count("poles_loop_orders_to_%d" % ncols)
+        elif rng.random() < 0.8:
             orders = list(range(1, ncols + 1))
         else:
             orders = sorted(rng.randint(1, 4) for _ in range(ncols))
@@ -597,13 +643,14 @@ def _corr_poles_loop(ctx, pl):
             V = np.asarray(V, complex)
             with np.errstate(all="ignore"):
                 logv = np.log(lam_d)
+            _log_contract(ctx, lam_d, logv)
             eigs.append([{"lamd": Cx(lam_d[ii]), "logv": Cx(logv[ii]) if (math.isfinite(logv[ii].real) and math.isfinite(logv[ii].imag)) else Cx(0),
                           "q": [Cx(v) for v in V[:, ii]]} for ii in range(len(lam_d))])
         inp = {"Ad": [_stack(a) for a in Ad], "Bn": [_stack(b) for b in Bn], "eigs": eigs, "invdt": R(invdt), "cor": method == "cor",
                "invtau": R(float(invtau))}
         mod = ctx.model("plscf_poles", **inp)
-        key = (tuple(orders), m, method, short)
-        info = {"orders": orders, "m": m, "dt": dt, "method": method, "short_Bn": short}
+        key = (tuple(orders), m, l, method, short)
+        info = {"orders": orders, "m": m, "l": l, "dt": dt, "method": method, "short_Bn": short}
         if raised is not None or "raises" in mod:
             ctx.count(f"poles_loop_raises_{raised}")
             ctx.corr("pLSCF_poles[loop]", mod.get("raises") == raised, info, mod.get("raises"), raised, key)
@@ -695,15 +742,34 @@ def _corr_plscf_all(ctx, pl):
             kind = "rational"
         Sy = np.round(Sy * 2**20) / 2**20
         raised = None
+        # `C05_order_prefix`: what the call stores for the orders 1..ordmax does not depend on how many higher orders
+        # follow -- the real call runs up to ordmax + extra (for the rational kind with ordmax = n: ABOVE the true order,
+        # where exact arithmetic has no value, `C05_plscfAll_above_error`, and floats return some element of the solution
+        # family), the model up to ordmax, and the first ordmax entries are compared
+        extra = rng.choice([0, 0, 1, 2]) if (sgn in (-1, 1) and ordmax >= 1) else 0
+        ctx.count(f"plscf_all_extra_{extra}")
+        if extra and kind == "rational" and ordmax == n:
+            ctx.count("plscf_all_above_true_order")
         try:
-            Ad, Bn = pl.pLSCF(Sy, dt, ordmax, sgn)
+            Ad, Bn = pl.pLSCF(Sy, dt, ordmax + extra, sgn)
+            if extra:
+                ok_len = len(Ad) == len(Bn) == ordmax + extra and all(
+                    Ad[j].shape == (j + 2, Nch, Nch) and Bn[j].shape == (j + 2, Nref, Nch) for j in range(ordmax + extra))
+                ctx.corr("pLSCF[above n]", ok_len, {"ordmax": ordmax, "extra": extra, "Nch": Nch, "Nref": Nref}, "shapes", None,
+                         (ordmax, extra, Nch, Nref, sgn, kind))
+                Ad, Bn = Ad[:ordmax], Bn[:ordmax]
         except (UnboundLocalError, np.linalg.LinAlgError) as e:
             raised = type(e).__name__
+            if extra:
+                # a singular solve above ordmax took the lower orders with it (floats: rare): nothing to compare
+                ctx.skipped += 1
+                ctx.count("plscf_all_extra_raised")
+                continue
         syj = [[[Cx(Sy[o, c, f]) for f in range(Nf)] for c in range(Nch)] for o in range(Nref)]
         omof = [[s_, [Cx(z) for z in _basis(Nf, dt, s_)]] for s_ in sorted({-1, 1, sgn})]
         mod = ctx.model("plscf_all", Sy=syj, ordmax=ordmax, sgn=sgn, OmOf=omof)
-        key = (ordmax, Nch, Nref, sgn, kind)
-        info = {"n": n, "ordmax": ordmax, "Nch": Nch, "Nref": Nref, "Nf": Nf, "dt": dt, "sgn": sgn, "kind": kind}
+        key = (ordmax, Nch, Nref, sgn, kind, extra)
+        info = {"n": n, "ordmax": ordmax, "extra": extra, "Nch": Nch, "Nref": Nref, "Nf": Nf, "dt": dt, "sgn": sgn, "kind": kind}
         ctx.count(f"plscf_all_sgn_{sgn}")
         if raised is not None or "raises" in mod:
             ctx.corr("pLSCF[all orders]", mod.get("raises") == raised, info, mod.get("raises"), raised, key)
@@ -733,6 +799,60 @@ def _corr_plscf_all(ctx, pl):
 
 
 
+def _corr_plscf_high(ctx, pl):
+    """the upper half of the property's range of orders (4..8; `pLSCF` stream: <= 3): the order-n entries of the real call
+    against ONE pass `plscfOrder` of the exact model at that order (Nch 1..2: the exact elimination of the 9*Nch square
+    normal matrix is the cost), both signs, random and rational spectra, 1e-13*cond(M22)."""
+    import sys
+
+    # exact rationals of the order-8 elimination have numerators beyond Python's default 4300-digit parsing limit
+    if hasattr(sys, "set_int_max_str_digits"):
+        sys.set_int_max_str_digits(0)
+    rng = ctx.rng
+    plan = [(rng.choice([7, 8]), 1), (rng.choice([4, 5, 6]), 2), (rng.choice([7, 8]), 2), (rng.choice([4, 5, 6, 7, 8]), 1)]
+    if ctx.tier != "quick":
+        plan += [(n, nch) for n in (4, 5, 6, 7, 8) for nch in (1, 2, 2)] + [(6, 3), (8, 3)]
+    for k, (n, Nch) in enumerate(plan):
+        g = ctx.nprng()
+        Nref = rng.randint(1, 2) if Nch == 1 else 1
+        Nf = rng.randint(4 * (n + 1), 4 * (n + 1) + 6)
+        dt = 10 ** rng.uniform(-3, 0)
+        sgn = rng.choice([-1, 1])
+        Om = _basis(Nf, dt, sgn)
+        if k % 2 == 0:
+            Sy = g.standard_normal((Nref, Nch, Nf)) + 1j * g.standard_normal((Nref, Nch, Nf))
+            kind = "random"
+        else:
+            A, B = _gen_AB(g, n, Nch, Nref)
+            Sy, _ = _spectrum(A, B, Om)
+            kind = "rational"
+        Sy = np.round(Sy * 2**16) / 2**16
+        Ad, Bn = pl.pLSCF(Sy, dt, n, sgn)
+        mod = ctx.model("plscf_order", n=n, hi=sgn == 1, Om=[Cx(z) for z in Om],
+                        Sy=[[[Cx(Sy[o, c, f]) for f in range(Nf)] for c in range(Nch)] for o in range(Nref)])
+        ctx.count(f"plscf_high_order_{n}")
+        info = {"n": n, "Nch": Nch, "Nref": Nref, "Nf": Nf, "dt": dt, "sgn": sgn, "kind": kind}
+        if mod is None:
+            ctx.corr("pLSCF[orders 4..8]", False, info, None, "returned", None)
+            continue
+        M = np.array(flmat(mod["M"]))
+        M22 = M[: n * Nch, : n * Nch] if sgn == 1 else M[Nch:, Nch:]
+        cnd = np.linalg.cond(M22)
+        if cnd > 1e7:
+            ctx.skipped += 1
+            ctx.count("plscf_high_cond_skipped")
+            continue
+        al = np.array(flmat(mod["alpha"])).reshape(-1, Nch, Nch)
+        be = np.moveaxis(np.array([flmat(b) for b in mod["beta"]]), 1, 0)
+        ok = len(Ad) == n and Ad[n - 1].shape == al.shape and Bn[n - 1].shape == be.shape
+        ea = max_rel_err(Ad[n - 1], al) if ok else float("inf")
+        eb = max_rel_err(Bn[n - 1], be) if ok else float("inf")
+        tol = 1e-13 * max(cnd, 10.0)
+        ctx.dist["margin_plscf_high"] = max(ctx.dist.get("margin_plscf_high", 0.0), max(ea, eb) / tol)
+        ctx.corr("pLSCF[orders 4..8]", ok and ea <= tol and eb <= tol, info | {"cond": cnd}, {"err_alpha": ea, "err_beta": eb}, None,
+                 (n, Nch, Nref, sgn, kind))
+
+
 def correspondence(ctx):
     pl = _pl()
     _corr_rmfd2ac(ctx, pl)
@@ -741,6 +861,7 @@ def correspondence(ctx):
     _corr_plscf(ctx, pl)
     _corr_poles_loop(ctx, pl)
     _corr_plscf_all(ctx, pl)
+    _corr_plscf_high(ctx, pl)
 
 
 # ----------------------------------------------------------------------------- oracle
